@@ -271,9 +271,24 @@ def fixed_templates():
     t.append("def test(a: Qchar) -> Qchar:\n    return chr(ord(a))")
     t.append("def test(a: Qint[4]) -> Qint[4]:\n    a += 1\n    a -= 2\n    a ^= 3\n    return a")
     t.append("def test(a: Qint[4]) -> Qint[4]:\n    a <<= 1\n    a >>= 2\n    return a")
-    # empty tuples (unmodelled), a nested if in a then-branch (rejected: _iftargN read before it is bound)
+    # empty tuples (no bits since 4042692); a nested if in a then-branch (rejected: _iftargN read before it is bound)
     t.append("def test(a: bool) -> bool:\n    u = ((), a)\n    return u[1]")
     t.append("def test(a: bool) -> bool:\n    t = ()\n    return a")
+    t.append("def test(a: bool) -> bool:\n    u = ()\n    v = u\n    return a")
+    t.append("def test(a: bool, b: bool) -> bool:\n    u = (a, (), b)\n    v = u\n    return v[2] and not v[0]")
+    t.append("def test(a: bool, b: Qint[2]) -> Qint[2]:\n    u = ((), a, ((), b))\n    v = u\n    return v[2][1] + 1 if v[1] else v[2][1]")
+    t.append("def test(a: bool) -> Tuple[bool, Tuple[()]]:\n    return (a, ())")
+    t.append("def test(a: bool) -> Tuple[Tuple[()], Tuple[bool, Tuple[()]]]:\n    t = ((), (a, ()))\n    return t")
+    t.append("def test(a: bool) -> Tuple[()]:\n    return ()")
+    t.append("def test(a: Tuple[()], b: bool) -> bool:\n    return b")
+    t.append("def test(u: Tuple[Tuple[()], Qint[2], bool]) -> Qint[2]:\n    v = u\n    return v[1] if v[2] else u[1] + 1")
+    t.append("def test(a: bool) -> bool:\n    u = ((), a)\n    w = u[0]\n    return u[1]")
+    t.append("def test(a: bool) -> Tuple[Tuple[()], bool]:\n    u = ((), a)\n    w = u[0]\n    return (w, a)")
+    t.append("def test(a: bool) -> bool:\n    u = (a, ())\n    return u == u")
+    t.append("def test(a: bool, b: bool, c: bool) -> bool:\n    u = (a, (), b)\n    w = (b, (), a)\n    return u == w")
+    t.append("def test(a: bool, c: bool) -> bool:\n    u = ((), a) if c else ((), c)\n    return u[1]")
+    t.append("def test(a: bool, c: bool) -> bool:\n    u = ((), a)\n    w = ((), c)\n    x = u if c else w\n    return x[1]")
+    t.append("def test(a: Qint[2]) -> Qint[2]:\n    for x in [(), ()]:\n        a = a + 1\n    return a")
     t.append("def test(a: bool, b: bool, c: Qint[2]) -> Qint[2]:\n    if a:\n        if b:\n            c = c + 1\n    return c")
     t.append("def test(a: bool, b: bool, c: Qint[2]) -> Qint[2]:\n    if a:\n        c = c + 1\n    else:\n        if b:\n            c = c + 2\n    return c")
     t.append("def test(a: bool) -> bool:\n    t = (a,)\n    u = t\n    return u[0]")
@@ -478,7 +493,11 @@ def c_list(items):
 
 
 def c_ty(t):
+    import typing
     from .types_ser import ty_to_coq, SerError
+    args = typing.get_args(t)
+    if args or typing.get_origin(t) is tuple:          # tuples, the empty one included
+        return "(TTuple %s)" % c_list([c_ty(a) for a in args])
     try:
         return ty_to_coq(t).replace("%nat", "")
     except SerError as e:
@@ -571,8 +590,6 @@ class Converter:
         if isinstance(e, ast.Constant):
             if isinstance(e.value, ast.Tuple):
                 u["Constant(Tuple)"] += 1
-                if not e.value.elts:
-                    raise Unmodelled("empty tuple")
                 elts = []
                 for x in e.value.elts:
                     if not isinstance(x, ast.Constant) or isinstance(x.value, (ast.AST,)):
@@ -585,9 +602,6 @@ class Converter:
                 raise Unmodelled("constant holding an ast node")
             return f"(EConst {c_cst(e.value, u)})"
         if isinstance(e, ast.Tuple):
-            if not e.elts:
-                # the code counts Tuple[()] as one bit in _type_size although it has no bit name
-                raise Unmodelled("empty tuple")
             u["Tuple"] += 1
             return f"(ETuple {c_list([self.exp(x) for x in e.elts])})"
         if isinstance(e, ast.Compare):
@@ -1152,9 +1166,9 @@ def collect(tier, seed, jobs=16, only=None, progs=None):
                           heavy_multiplications=len([r for r in okr if r.get("heavy")]),
                           constructs=dict(used.most_common()), coq_files=len(files),
                           outside_theorem_guards=len(guard_out),
-                          guard_is="seq_ok only (stmt_guard / body_guard of M_Texp.v)",
+                          guard_is="sub_ne and seq_ok (stmt_guard / body_guard of M_Texp.v)",
                           numbering_table_fails_hygiene=len(hyg_out - guard_out),
-                          outside_signature_or_syntax_hypotheses=len(wf_out),
+                          outside_signature_hypotheses=len(wf_out),
                           outside_hypotheses_examples=[by_id[i]["src"] for i in sorted(wf_out | (hyg_out - guard_out))[:10]],
                           outside_guard_examples=[by_id[i]["src"] for i in sorted(guard_out)[:40]]),
         evaluator_vs_shadow=dict(agree=eval_codes[0], only_shadow=eval_codes[2], only_model=eval_codes[3], neither=eval_codes[4],
